@@ -410,3 +410,40 @@ def r3e2_parallel_scan(ctx):
 def _compute_conditional(ctx):
     r3a_clean_before_append(ctx)
     return ctx._cache.get("r3a_conditional") or {}
+
+
+def r3g_buffer_content(ctx):
+    r = Result("R3g", "the cleaning analysis replaces the indexed state of a file that may be open in the editor, so the text it is "
+                      "given never originates from a direct filesystem read: it comes from the notification's parameters or from the "
+                      "content cache (which holds the editor buffer once a document was opened)")
+    ei = _entry(ctx)
+    if ei.entry is None:
+        r.anchor_missing("analysis entry", "not found")
+        return r
+    db = ei.db
+    E = ei.entry
+    gates = sorted(set((ctx._cache.get("r3a_conditional") or _compute_conditional(ctx)).values()))
+    cleaning = set()
+    for cf, bb, c in db.origins.callers.get(E.id, []):
+        if gates and all(_const_bool(c["args"][p - 1]) is True for p in gates if p - 1 < len(c["args"])):
+            cleaning.add(cf.id)
+    n = 0
+    for w in sorted(cleaning):
+        wf = ctx.bin.fns[w]
+        # the &str parameter of the wrapper
+        sp = [i for i in range(1, wf.argc + 1) if wf.local_ty(i) == "&str"]
+        if not sp:
+            continue
+        for cf, bb, c in db.origins.callers.get(w, []):
+            n += 1
+            terms = db.origins.of_operand(cf, c["args"][sp[0] - 1])
+            bad = sorted({t[2] for t in terms if t[0] == "call" and re.search(r"std::fs::(read_to_string|read)$|::read_to_string$", t[2] or "")})
+            key = "R3g|%s|content read from disk" % cf.id
+            if bad:
+                r.violate(key, "%s passes text read from the filesystem (%s) to the cleaning analysis at %s: an open document's buffer "
+                               "is replaced by the older on-disk text" % (cf.id, bad, ctx.bin.span_str(c["span"])))
+            else:
+                r.ok(sample={"caller": cf.id.split("::")[-1] if "closure" not in cf.id else cf.id.split("::")[-2], "content_from":
+                             sorted({(t[2] or "").split("::")[-1] if t[0] == "call" else t[0] for t in terms})[:3]})
+    r.floor("call sites of the cleaning analysis", n, 3)
+    return r
